@@ -183,6 +183,26 @@ def deleterModify (namex : Name) (mustExist mustBeDir mustBeFile : Bool) (childr
     else if mustBeFile && old.kind = .dir then .error .wrongType
     else .ok (erase name children, some old)
 
+/-- `Deleter.modify(old_contents, servermap, first_time)` with its `first_time` argument:
+    `if first_time and self.must_exist: raise NoSuchChildError` — on a retry a missing child is not an error
+    (the first attempt may already have removed it). -/
+def deleterModifyFT (firstTime : Bool) (namex : Name) (mustExist mustBeDir mustBeFile : Bool)
+    (children : Children Name C) : Except Err (Children Name C × Option (Node C)) :=
+  deleterModify norm namex (firstTime && mustExist) mustBeDir mustBeFile children
+
+/-- The retry loop of `MutableFileVersion.modify` as the directory layer sees it: the modifier is applied to the
+    contents just read (`first_time = True` the first time); if the publish then fails with
+    UncoordinatedWriteError the contents are read again — they may be anything another writer left — and the
+    modifier is applied again with `first_time = False`; an exception of the modifier ends the loop.
+    `reads` are the contents of the later reads; the result is that of the last application. -/
+def retryLoop {R : Type} (modifier : Bool → Children Name C → Except Err R) (first : Bool)
+    (c : Children Name C) : List (Children Name C) → Except Err R
+  | [] => modifier first c
+  | c' :: more =>
+    match modifier first c with
+    | .error e => .error e
+    | .ok _ => retryLoop modifier false c' more
+
 /-- `MetadataSetter.modify` -/
 def metadataSetterModify (namex : Name) (md : Meta) (now : Nat) (children : Children Name C) :
     Except Err (Children Name C) :=
